@@ -486,6 +486,36 @@ func alterOpening(D []*big.Int, idx int, class string, ctx *mutCtx) ([]*big.Int,
 	case "keep-one": // only the commitment randomness: the opening "opens to nothing"
 		return out[:1], true
 	}
+	if strings.HasPrefix(class, "add-small-order-point-") {
+		// edwards25519 only: the committed point that contains element idx gets a point of order 2, 4 or 8 added
+		// (a different, valid on-curve point; the deviator's shares and proofs stay those of the original point)
+		if !ctx.edw || idx < 1 {
+			return nil, false
+		}
+		var ord int
+		fmt.Sscanf(class, "add-small-order-point-%d", &ord)
+		xi := 1 + 2*((idx-1)/2)
+		if xi+1 >= len(out) {
+			return nil, false
+		}
+		cv := ref.Ed25519
+		for _, T := range cv.TorsionEd() {
+			if cv.IsNeutral(T) {
+				continue
+			}
+			o, acc := 1, T
+			for !cv.IsNeutral(acc) {
+				acc = cv.Add(acc, T)
+				o++
+			}
+			if o == ord {
+				np := cv.Add(ref.Point{X: out[xi], Y: out[xi+1]}, T)
+				out[xi], out[xi+1] = np.X, np.Y
+				return out, true
+			}
+		}
+		return nil, false
+	}
 	if idx >= len(out) {
 		return nil, false
 	}
@@ -1341,6 +1371,19 @@ func EnumerateCraftedCases(scName string, deviator int) []Case {
 	for _, cp := range CommitPairs {
 		if strings.HasPrefix(scName, cp.Proto) && (strings.Contains(cp.Proto, "keygen") || strings.Contains(cp.Proto, "resharing")) {
 			cases = append(cases, Case{Scenario: scName, Deviator: deviator, Dev: Dev{MsgType: cp.RevealType, Field: cp.RevealField, Index: 1, Op: "recommit:raise-degree"}})
+		}
+	}
+	if strings.HasPrefix(scName, "eddsa") {
+		// committed points with a small-order component (first and last committed point)
+		for _, cp := range CommitPairs {
+			if !strings.HasPrefix(scName, cp.Proto) {
+				continue
+			}
+			for _, idx := range []int{1, 1000000} {
+				for _, ord := range []int{2, 4, 8} {
+					cases = append(cases, Case{Scenario: scName, Deviator: deviator, Dev: Dev{MsgType: cp.RevealType, Field: cp.RevealField, Index: idx, Op: fmt.Sprintf("recommit:add-small-order-point-%d", ord)}})
+				}
+			}
 		}
 	}
 	switch {
